@@ -358,3 +358,36 @@ Section Subgroups.
         end
     end.
 End Subgroups.
+
+(* ====================================================================== *)
+(* the small predicates of utils.py the two functions lean on               *)
+(* ====================================================================== *)
+(* Their bodies are translated WHOLE into Gen/FactsReplace.v (is_dataclass_instance_gen, is_dataclass_type_gen,
+   contains_dc_gen, is_optional_gen) over the abstractions below; Proofs/ReplaceProofs.v bridges the generated
+   functions to what the model hard-codes (is_dc, the SType/SInst arms of `resolve`, the m_has_dc / m_optional
+   columns of the observed tables).  The primitives named p_... stand for stdlib / typing calls and are trusted. *)
+
+(* what kind of Python object something is, as far as dataclasses.is_dataclass / inspect.isclass can tell *)
+Inductive okind := KInst | KDcClass | KClass | KOther.
+Definition p_is_dataclass (k : okind) : bool := match k with KInst | KDcClass => true | _ => false end.       (* dataclasses.is_dataclass(obj) *)
+Definition p_type_is_dataclass (k : okind) : bool := match k with KInst => true | _ => false end.            (* dataclasses.is_dataclass(type(obj)) *)
+Definition p_isclass (k : okind) : bool := match k with KDcClass | KClass => true | _ => false end.          (* inspect.isclass(obj) *)
+Definition kind_of (v : value) : okind := match v with VDc _ _ => KInst | _ => KOther end.
+Definition skind (s : sel) : okind := match s with SType _ => KDcClass | SInst _ => KInst | _ => KOther end.
+
+(* a field annotation, as far as contains_dataclass_type_arg / is_optional look at it *)
+Inductive ann :=
+| ADc                        (* a dataclass type *)
+| ATypeVarDc                 (* a TypeVar bound to a dataclass *)
+| AListDc                    (* List[...] / Tuple[...] whose item type is a dataclass (or such a TypeVar) *)
+| AUnion (args : list ann)   (* Union[...] / X | Y *)
+| ANoneType                  (* type(None), as a Union argument *)
+| ALiteral (has_none : bool) (* Literal[...] *)
+| AOther.                    (* int, str, List[int], Dict[...], Any, ... *)
+Definition p_is_dc_or_typevar (t : ann) : bool := match t with ADc | ATypeVarDc => true | _ => false end.    (* is_dataclass_type_or_typevar(t) *)
+Definition p_list_of_dc (t : ann) : bool := match t with AListDc => true | _ => false end.                   (* is_tuple_or_list_of_dataclasses(t) *)
+Definition p_is_union (t : ann) : bool := match t with AUnion _ => true | _ => false end.                    (* is_union(t) *)
+Definition p_is_literal (t : ann) : bool := match t with ALiteral _ => true | _ => false end.                (* is_literal(t) *)
+Definition p_args (t : ann) : list ann := match t with AUnion l => l | _ => [] end.                          (* get_type_arguments(t), for a Union *)
+Definition p_is_nonetype (t : ann) : bool := match t with ANoneType => true | _ => false end.                (* arg is type(None) *)
+Definition p_literal_has_none (t : ann) : bool := match t with ALiteral b => b | _ => false end.             (* None in get_type_arguments(Literal[...]) *)
